@@ -38,6 +38,7 @@ type Job struct {
 	Solver    string           `json:"solver"`
 	Excludes  map[string][][]Pred `json:"excludes"` // label -> list of known-finding predicates (conjunctions)
 	SMTLog    string           `json:"smt_log"`
+	Cross     string           `json:"cross"` // second solver for re-deciding discharged assertions (e.g. z3-new)
 }
 
 type Pred struct {
@@ -156,6 +157,7 @@ func runJob(l *Loaded, job Job) (res JobResult) {
 		ex.deadline = t0.Add(time.Duration(job.TimeoutS * float64(time.Second)))
 	}
 	ex.maxPaths = job.MaxPaths
+	ex.crossSolver = job.Cross
 	ex.exclPreds = job.Excludes
 	fnCount := map[*ssa.Function]int64{}
 	run := func() {
@@ -239,9 +241,7 @@ func (ip *Interp) runInit(init *ssa.Function) {
 	ip.callSSA(nil, 0, init, nil, nil)
 }
 
-func cmdSelftest() {
-	fmt.Println("selftest: ok")
-}
+
 
 func main() {
 	if len(os.Args) < 2 {
